@@ -241,6 +241,11 @@ func Main(p *Property) {
 func (p *Property) digests() {
 	tier := os.Args[2]
 	n, _ := strconv.Atoi(os.Args[3])
+	from := 0
+	if len(os.Args) > 4 { // digests <tier> <from> <to>
+		from = n
+		n, _ = strconv.Atoi(os.Args[4])
+	}
 	seed := seedFromEnv()
 	if p.Init != nil {
 		p.Init()
@@ -249,7 +254,7 @@ func (p *Property) digests() {
 	if p.Directed != nil {
 		directed = p.Directed(tier)
 	}
-	for id := 0; id < n; id++ {
+	for id := from; id < n; id++ {
 		plan := p.planFor(seed, tier, id, directed)
 		run := p.execPlan(plan, false)
 		fmt.Printf("%d %s %d\n", id, run.Digest(), len(run.Viol))
